@@ -78,7 +78,7 @@ Definition sx_instr (i : instr) : sx :=
   match i with
   | IPushI z => SL [SZ 39; SZ z]
   | IPushL z => SL [SZ 40; SZ z]
-  | IPushS f => SL [SZ 41; SZ (bits_of_fl f)]
+  | IPushS f => SL [SZ 41; SZ (bits_of_fl (match to_single f with Some f' => f' | None => f end))]   (* the operand as loaded *)
   | IPushD f => SL [SZ 42; SZ (bits_of_fl f)]
   | IPushStr i => SL [SZ 43; SZ i]
   | IPushC ty c => SL [SZ 44; SZ ty; SZ c]
